@@ -21,12 +21,12 @@
 (* ("remove", what Python 3.4 does: the next import runs the body again).                     *)
 EXTENDS PyImportCfg, Json
 
-VARIABLES prog, policy, store, stack, exc, ns, nsall, cnt, log, cls, obs, runs, fails, made, binds, steps
-vars == <<prog, policy, store, stack, exc, ns, nsall, cnt, log, cls, obs, runs, fails, made, binds, steps>>
+VARIABLES prog, policy, starerr, fstar, store, stack, exc, ns, nsall, cnt, log, cls, obs, runs, fails, made, binds, steps
+vars == <<prog, policy, starerr, fstar, store, stack, exc, ns, nsall, cnt, log, cls, obs, runs, fails, made, binds, steps>>
 
 Op(o) == [form |-> o, t |-> "-"]
 ValuesOf(m) == [v |-> m \o ".v", _h |-> m \o "._h", pub |-> m \o ".pub"]
-SetOp(m, a) == [form |-> "set", t |-> "-", vals |-> ValuesOf(m), allv |-> a, hasall |-> a # "no", all |-> AllList(a)]
+SetOp(m, a) == [form |-> "set", t |-> "-", vals |-> ValuesOf(m), allv |-> a, hasall |-> a # "no", all |-> AllList(a), astuple |-> a = "emptyt"]
 BodyOf(c, m) ==
   IF m = Main THEN c.main
   ELSE LET mc == c.mods[m] IN
@@ -35,16 +35,20 @@ BodyOf(c, m) ==
          \o << SetOp(m, mc.all) >> \o mc.post
          \o (IF mc.raises = "late" THEN <<Op("raise")>> ELSE <<>>) \o <<Op("end")>>
 Policies(c) == IF \E m \in Mods : c.mods[m].raises # "no" THEN {"remove", "keep"} ELSE {"remove"}
+(* `from t import *` where __all__ lists a name t does not have: Python 3.4 raises AttributeError (after   *)
+(* binding the names listed before it); C19 only says a missing name "raises ImportError", so either class  *)
+(* is a behaviour of the model (one per behaviour, like policy).                                            *)
+StarErrs(c) == IF \E m \in Mods : c.mods[m].all = "vz" THEN {"AttributeError", "ImportError"} ELSE {"AttributeError"}
 (* prog is the configuration in executable form, computed once per behaviour: the bodies, the module kinds *)
 (* and the number of behaviours the model allows for this configuration (see policy)                      *)
-ProgOf(f, c) == [fam |-> f, bodies |-> [m \in All |-> BodyOf(c, m)], kinds |-> [m \in Mods |-> c.mods[m].kind], alts |-> Cardinality(Policies(c))]
+ProgOf(f, c) == [fam |-> f, bodies |-> [m \in All |-> BodyOf(c, m)], kinds |-> [m \in Mods |-> c.mods[m].kind], alts |-> Cardinality(Policies(c)) * Cardinality(StarErrs(c))]
 Body(m) == prog.bodies[m]
 
 Frame(m) == [m |-> m, pc |-> 1, wait |-> FALSE, tc |-> "-"]
 
 InitWith(f, S) ==
-  /\ \E c \in S : prog = ProgOf(f, c) /\ policy \in Policies(c)
-  /\ store = {} /\ stack = << Frame(Main) >> /\ exc = "none"
+  /\ \E c \in S : prog = ProgOf(f, c) /\ policy \in Policies(c) /\ starerr \in StarErrs(c)
+  /\ store = {} /\ stack = << Frame(Main) >> /\ exc = "none" /\ fstar = {}
   /\ ns = [m \in All |-> EmptyNs] /\ nsall = [m \in All |-> "no"] /\ cnt = [m \in Mods |-> 0]
   /\ log = <<>> /\ cls = <<>> /\ obs = <<>>
   /\ runs = [m \in Mods |-> 0] /\ fails = [m \in Mods |-> 0] /\ made = [m \in Mods |-> 0] /\ binds = [m \in Mods |-> <<>>]
@@ -68,7 +72,11 @@ Advance(es, cs) ==
      THEN /\ obs' = Append(obs, [log |-> log \o es, cls |-> cls \o cs, store |-> store'])
           /\ log' = <<>> /\ cls' = <<>>
      ELSE /\ log' = log \o es /\ cls' = cls \o cs /\ UNCHANGED obs
-ClsOf(s, tc) == <<"stmt", s.form, tc>>
+(* fstar: the modules in whose namespace a star-import failed at the listed-but-missing name zz, and the     *)
+(* modules that imported "zz" or everything public from such a module.  None of them has a name zz; the set   *)
+(* only classifies statements for naming divergences (an implementation that leaves zz behind after the      *)
+(* failed star-import spreads it exactly along this set).                                                    *)
+ClsOf(s, tc) == <<"stmt", s.form, IF s.t \in fstar THEN tc \o "+failed-star" ELSE tc>>
 ImportErrorEntry == << <<Top.m, Idx, "ImportError">> >>
 
 AtImport == Active /\ exc = "none" /\ Cur.form \in Forms
@@ -78,7 +86,7 @@ MissingModule ==
   /\ AtImport /\ ~Top.wait /\ Cur.t = Missing
   /\ store' = store
   /\ Advance(ImportErrorEntry, << ClsOf(Cur, "missing") >>)
-  /\ Tick /\ UNCHANGED <<prog, policy, exc, ns, nsall, cnt, runs, fails, made, binds>>
+  /\ Tick /\ UNCHANGED <<prog, policy, starerr, fstar, exc, ns, nsall, cnt, runs, fails, made, binds>>
 
 (* first import in this context: the module is registered BEFORE its body runs *)
 RegisterBeforeRun ==
@@ -88,15 +96,20 @@ RegisterBeforeRun ==
      /\ ns' = [ns EXCEPT ![t] = EmptyNs] /\ nsall' = [nsall EXCEPT ![t] = "no"] /\ cnt' = [cnt EXCEPT ![t] = 0]
      /\ made' = [made EXCEPT ![t] = @ + 1] /\ binds' = [binds EXCEPT ![t] = <<>>]
      /\ stack' = Append(SetTop([Top EXCEPT !.wait = TRUE, !.tc = "first"]), Frame(t))
-  /\ Tick /\ UNCHANGED <<prog, policy, exc, log, cls, obs, runs, fails>>
+     /\ fstar' = fstar \ {t}
+  /\ Tick /\ UNCHANGED <<prog, policy, starerr, exc, log, cls, obs, runs, fails>>
 
 (* from t import *  binds exactly __all__ if t has one, else the names not starting with an underscore *)
+(* (an empty __all__ binds nothing; a listed name the module lacks makes the statement fail after the names before it) *)
 StarNames(t) == IF nsall[t] = "no" THEN { n \in Names \ Private : ns[t][n] # Unbound }
-                ELSE { AllList(nsall[t])[i] : i \in 1..Len(AllList(nsall[t])) }
+                ELSE { AllList(nsall[t])[i] : i \in 1..Len(AllList(nsall[t])) } \cap Names
+StarFails(t) == \E i \in 1..Len(AllList(nsall[t])) : AllList(nsall[t])[i] \notin Names
 
 (* The module table has the module - complete, or partial because it is still loading further down the    *)
 (* stack, or just loaded by this very statement: bind what the statement form says and observe it.       *)
 TargetClass == IF Top.wait THEN Top.tc ELSE IF OnStack(Cur.t) THEN "loading" ELSE "loaded"
+Spreads == (Cur.form = "star" /\ StarFails(Cur.t)) \/ (Cur.form = "star" /\ nsall[Cur.t] = "no" /\ Cur.t \in fstar)
+           \/ (Cur.form = "from_missing" /\ Cur.t \in fstar)
 BindNames ==
   /\ AtImport /\ Cur.t \in store
   /\ store' = store
@@ -115,8 +128,10 @@ BindNames ==
        [] s.form = "star" ->
             LET new == [n \in Names |-> IF n \in StarNames(t) THEN T[n] ELSE ns[I][n]] IN
             /\ ns' = [ns EXCEPT ![I] = new]
-            /\ Advance(<< <<I, Idx, "star", new.v, new._h, new.pub, new.w>> >>, c) /\ UNCHANGED <<cnt, binds>>
-  /\ Tick /\ UNCHANGED <<prog, policy, exc, nsall, runs, fails, made>>
+            /\ Advance(IF StarFails(t) THEN << <<I, Idx, starerr>> >> ELSE << <<I, Idx, "star", new.v, new._h, new.pub, new.w>> >>, c)
+            /\ UNCHANGED <<cnt, binds>>
+  /\ fstar' = IF Spreads THEN fstar \cup {Top.m} ELSE fstar
+  /\ Tick /\ UNCHANGED <<prog, policy, starerr, exc, nsall, runs, fails, made>>
 
 (* the other steps of a module body *)
 RunBodyStep ==
@@ -130,13 +145,13 @@ RunBodyStep ==
                               /\ nsall' = [nsall EXCEPT ![m] = Cur.allv]
                               /\ stack' = nxt /\ UNCHANGED <<exc, log, cls, runs>>
        [] Cur.form = "raise" -> exc' = "ValueError" /\ UNCHANGED <<stack, ns, nsall, log, cls, runs>>
-  /\ Tick /\ UNCHANGED <<prog, policy, store, cnt, obs, fails, made, binds>>
+  /\ Tick /\ UNCHANGED <<prog, policy, starerr, fstar, store, cnt, obs, fails, made, binds>>
 
 (* a body ran to its end: the import that started it can bind *)
 FinishImport ==
   /\ stack # <<>> /\ exc = "none" /\ Top.pc > Len(Body(Top.m))
   /\ stack' = Rest
-  /\ Tick /\ UNCHANGED <<prog, policy, store, exc, ns, nsall, cnt, log, cls, obs, runs, fails, made, binds>>
+  /\ Tick /\ UNCHANGED <<prog, policy, starerr, fstar, store, exc, ns, nsall, cnt, log, cls, obs, runs, fails, made, binds>>
 
 (* an exception leaves a module body: the import fails, the importer's statement raises it *)
 FailBody ==
@@ -144,14 +159,14 @@ FailBody ==
   /\ stack' = Rest
   /\ store' = IF policy = "remove" THEN store \ {Top.m} ELSE store
   /\ fails' = [fails EXCEPT ![Top.m] = @ + 1]
-  /\ Tick /\ UNCHANGED <<prog, policy, exc, ns, nsall, cnt, log, cls, obs, runs, made, binds>>
+  /\ Tick /\ UNCHANGED <<prog, policy, starerr, fstar, exc, ns, nsall, cnt, log, cls, obs, runs, made, binds>>
 
 (* ... and the main program catches it; the context stays usable *)
 CatchInMain ==
   /\ stack # <<>> /\ exc # "none" /\ Top.m = Main
   /\ store' = store /\ exc' = "none"
   /\ Advance(<< <<Main, Idx, exc>> >>, << <<"raised", Cur.form, Top.tc>> >>)
-  /\ Tick /\ UNCHANGED <<prog, policy, ns, nsall, cnt, runs, fails, made, binds>>
+  /\ Tick /\ UNCHANGED <<prog, policy, starerr, fstar, ns, nsall, cnt, runs, fails, made, binds>>
 
 Next == MissingModule \/ RegisterBeforeRun \/ BindNames \/ RunBodyStep \/ FinishImport \/ FailBody \/ CatchInMain
 Final == stack = <<>>
@@ -176,8 +191,8 @@ StarRespectsUnderscore == \A m \in All : ns[m]._h # Unbound /\ (m = Main \/ ns[m
 (* (a body is at most 9 steps long with at most 4 imports of 2 steps each; after a failure everything unwinds to the main program) *)
 Terminates == steps <= Len(Body(Main)) * (3 + Cardinality(Mods) * 14) + 1
 Usable == Final => Len(obs) = Len(Body(Main))
-TypeOK == store \subseteq Mods /\ exc \in {"none", "ValueError"} /\ policy \in {"remove", "keep"}
+TypeOK == starerr \in {"AttributeError", "ImportError"} /\ store \subseteq Mods /\ exc \in {"none", "ValueError"} /\ policy \in {"remove", "keep"}
 
 (* ------------------------------------------- export --------------------------------------------- *)
-Emit == Final => PrintT(ToJson([fam |-> prog.fam, kinds |-> prog.kinds, bodies |-> prog.bodies, policy |-> policy, alts |-> prog.alts, obs |-> obs]))
+Emit == Final => PrintT(ToJson([fam |-> prog.fam, kinds |-> prog.kinds, bodies |-> prog.bodies, policy |-> policy, starerr |-> starerr, alts |-> prog.alts, obs |-> obs]))
 =============================================================================
